@@ -21,6 +21,70 @@ def _calls(el, name):
     return any(x[0] == "c" and x[1].split("::")[-1] == name for x in guard.el_top_calls(el))
 
 
+NULLABLE_NAV = ("getLastChild", "getFirstChild", "getPreviousSibling", "getNextSibling")
+
+
+def cursor_rule(rep, rid="C20.h"):
+    rep.rule(rid, "the tree builder's cursor survives an inclusion that yields nothing: in the DOM builders (AbstractDOMParser, "
+             "DOMLSParserImpl) an assignment of fCurrentNode from a navigation getter that returns null for 'no such node' "
+             "(getLastChild, getFirstChild, getPreviousSibling, getNextSibling) either is a conditional with a non-null "
+             "alternative or is followed on every normal path by a test of fCurrentNode — docCharacters dereferences the cursor, "
+             "so `<xi:include><xi:fallback/></xi:include>text` as only content crashed the parser")
+    tus = [os.path.join(core.REPO, "src/xercesc/parsers/AbstractDOMParser.cpp"), os.path.join(core.REPO, "src/xercesc/parsers/DOMLSParserImpl.cpp")]
+    g = core.run_xa(tus, cfg=r"^(AbstractDOMParser|DOMLSParserImpl)::", flat=False)
+    F = "AbstractDOMParser::fCurrentNode"
+    n = 0
+    for q, raws in sorted(g.cfgs.items()):
+        for raw in raws:
+            cfg = guard.Cfg(raw)
+
+            def is_nav_assign(el):
+                x = el.get("x")
+                if not (x and x[0] == "b" and x[1] == "=" and x[2][0] == "f" and x[2][1] == F):
+                    return False
+                r = x[3]
+                while r[0] == "cast":
+                    r = r[2]
+                return r[0] == "c" and r[1].split("::")[-1] in NULLABLE_NAV
+
+            def is_test(el):
+                return False
+            sites = [(b, i, el) for b, i, el in cfg.elements() if is_nav_assign(el)]
+            if not sites:
+                continue
+            # a following null test = a branch whose condition mentions the cursor
+            tested_blocks = set()
+            for bid, blk in cfg.blocks.items():
+                t = blk.get("term")
+                c = t and t.get("cond")
+                if c and guard.mentions(c, lambda s_: isinstance(s_, list) and len(s_) >= 2 and s_[0] == "f" and s_[1] == F):
+                    tested_blocks.add(bid)
+            for b, i, el in sites:
+                n += 1
+                # every path from the assignment reaches a testing block before the exit
+                ok = True
+                seen, work = set(), [b]
+                while work:
+                    x = work.pop()
+                    if x in seen:
+                        continue
+                    seen.add(x)
+                    if x in tested_blocks:
+                        continue
+                    if x == cfg.exit:
+                        ok = False
+                        break
+                    if cfg.throws(x):
+                        continue
+                    work.extend(cfg.succs(x))
+                rep.ob(rid, "%s@fCurrentNode:%d" % (q, n), ok,
+                       "null result is tested before the callback returns" if ok else
+                       "%s (line %s) leaves fCurrentNode = %s, which is null when there is no such node, without a test: the next "
+                       "character-data callback dereferences it" % (q, el.get("l"), core.sx_str(el["x"][3])),
+                       "%s:%s" % (cfg.file, el.get("l", 0)))
+    rep.floor(rid, n, 1)
+
+
 def run(rep):
     f = core.library_facts()
     g = core.run_xa([os.path.join(core.REPO, XI), os.path.join(core.REPO, "src/xercesc/parsers/AbstractDOMParser.cpp")],
@@ -151,6 +215,7 @@ def run(rep):
     rep.floor("C20.d", k, 1)
 
     C04.readbytes_rule(rep, "C20.e", lambda fn: fn.get("cls") == "XIncludeUtils")
+    cursor_rule(rep)
     diag.run(rep, f, "C20")
     rep.undecided += ["equality of the merged tree with the XInclude specification's result; xml:base fix-up values",
                       "xi:include targets are fetched by default resolution even when default entity resolution is disabled (remark)"]
